@@ -162,8 +162,13 @@ class AbstractFormat:
         two's-complement has a single zero.
         """
         # negation maps +inf <-> -inf; NaN is unsigned so it is preserved
+        pos_bound = -self.neg_bound
+        if isinstance(pos_bound, RealFloat) and pos_bound.is_zero():
+            # `-(+0)` is `-0`, but a bound of zero is still the non-negative
+            # side's limit: the formats `format()` builds reject a signed one
+            pos_bound = abs(pos_bound)
         return AbstractFormat(
-            self.prec, self.exp, -self.neg_bound, neg_bound=-self.pos_bound,
+            self.prec, self.exp, pos_bound, neg_bound=-self.pos_bound,
             has_pos_inf=self.has_neg_inf, has_neg_inf=self.has_pos_inf, has_nan=self.has_nan,
             has_neg_zero=self.has_neg_zero,
         )
